@@ -40,17 +40,20 @@ type Monitors struct {
 	bindOwner map[bindKey]string // binding -> owner
 	provOwner map[string]string
 	ctxSeen   map[string]*ctxTrack
+	rel       *relState // per-history memory of the step-relational monitors
+	k2, k5    bool      // the history contains a K2 / K5 input (frequency >= 2^62, signer address not 20 bytes)
 }
 
+// ctxTrack: what C10 remembers about one context over the history.
 type ctxTrack struct {
-	maxTotal   int64 // largest total in force; -1 = unlimited seen
-	unlimited  bool
-	starts     []int64 // heights at which the counter advanced
-	createdAt  int64
-	lastCount  uint64
+	maxTotal   int64 // largest non-negative total ever in force
+	unlimited  bool  // a negative total was in force at some point
+	createdAt  int64 // height of the block containing the call
+	lastStart  int64 // height of the EndBlock that last advanced the counter, -1 = none
 	freqAtLast uint64
 	toutAtLast int64
-	steady     bool
+	steady     bool // running, with unchanged timeout and frequency, ever since lastStart
+	restarted  bool // was seen not running at some point
 }
 
 func newMonitors(r *Runner) *Monitors {
@@ -58,8 +61,24 @@ func newMonitors(r *Runner) *Monitors {
 		provOwner: map[string]string{}, ctxSeen: map[string]*ctxTrack{}}
 }
 
+// fail records a violation. Failures that stem from an input class recorded as
+// a known finding carry the prefix "K1: " .. "K5: " so that the caller can
+// classify them; every other failure is a genuine alarm.
 func (m *Monitors) fail(prop string, format string, args ...interface{}) {
-	v := Violation{prop, m.r.step, fmt.Sprintf(format, args...)}
+	detail := fmt.Sprintf(format, args...)
+	if !(len(detail) > 3 && detail[0] == 'K' && detail[2] == ':') {
+		switch {
+		case m.k5:
+			detail = "K5: " + detail
+		case m.k2 && (prop == "C10" || prop == "C11"):
+			detail = "K2: " + detail
+		case m.rel != nil && m.rel.k3any && (prop == "C01" || prop == "C16" || prop == "C12" || prop == "C11" || prop == "C13"):
+			// aggregate state predicates cannot name the context: once the module-service
+			// path (K3) ran in this history its unbacked earning / leftover records persist
+			detail = "K3: " + detail
+		}
+	}
+	v := Violation{prop, m.r.step, detail}
 	m.viol = append(m.viol, v)
 	fmt.Fprintf(m.r.out, "V %d %s %s\n", v.Step, v.Prop, v.Detail)
 }
@@ -77,6 +96,15 @@ func (m *Monitors) balances() (map[int64]*big.Int, *big.Int, *big.Int, *big.Int,
 }
 
 func (m *Monitors) before(o *Op) *Pre {
+	// known-finding input classes
+	if sg := o.signer(); sg != 0 && o.Kind != "respond" {
+		if b, ok := m.r.a.addrBytes[sg]; ok && len(b) != 20 {
+			m.k5 = true
+		}
+	}
+	if (o.Kind == "call" || o.Kind == "modcall" || o.Kind == "updctx") && o.Freq >= 1<<62 {
+		m.k2 = true
+	}
 	bal, esc, dep, fee, sup := m.balances()
 	return &Pre{snap: m.r.snap, bal: bal, esc: esc, dep: dep, fee: fee, sup: sup, h: m.r.height, now: m.r.now.UnixNano()}
 }
@@ -405,10 +433,15 @@ func samePromos(rawLine string, p types.Pricing) bool {
 func (m *Monitors) after(o *Op, res string, pre *Pre) {
 	bal, esc, dep, fee, sup := m.balances()
 	s := m.r.snap
+	m.noteK3(s)
 	m.static(s, esc, dep)
 	m.evals["C20"]++
 	if res == "panic" {
-		m.fail("C20", "%s panicked: %s", o.Kind, o.Note)
+		tag := ""
+		if strings.Contains(o.Note, "Int overflow") && (o.Kind == "bind" || o.Kind == "update") {
+			tag = "K1: "
+		}
+		m.fail("C20", "%s%s panicked: %s", tag, o.Kind, o.Note)
 	}
 	m.relational(o, res, pre, s, bal, esc, dep, fee, sup)
 }
